@@ -50,12 +50,12 @@ PROPS = {
     assumptions=[A['A3'], A['A4'], A['A7']],
     explanation='AffineG::new: Ok iff y^2 = x^3 + b and (check_order => [r-1]P + P = O), for both values of check_order'),
  'C06': dict(
-    tasks=T('mirvc:specs_lib', 'lsearch:all'),
+    tasks=(lambda tier: ['kani:limbs_linear', 'mirvc:specs_lib', 'mirvc:specs_loops', 'lsearch:all'] if tier == 'quick' else ['kani:limbs_linear', 'mirvc:specs_lib', 'mirvc:specs_loops', 'lsearch:all', 'kani:canon']),
     trusted_base=[A['A1'], A['A6'], A['A7']],
     assumptions=[A['A1'], A['A6'], A['A7']],
     explanation='(under construction) limb-level contracts'),
  'C13': dict(
-    tasks=T('lsearch:all'),
+    tasks=(lambda tier: ['kani:dispatch', 'kani:bytes', 'kani:limbs_linear', 'mirvc:specs_lib', 'lsearch:all'] if tier == 'quick' else ['kani:dispatch', 'kani:bytes', 'kani:limbs_linear', 'mirvc:specs_lib', 'lsearch:all']),
     trusted_base=[A['A6'], A['A7'], A['A9']],
     assumptions=[A['A6'], A['A7'], A['A9']],
     explanation='(under construction) conversion contracts'),
@@ -65,17 +65,17 @@ PROPS = {
     assumptions=[A['A3'], A['A4'], A['A6'], A['A7']],
     explanation='double-and-add loop of Mul<Fr> for G<P> verified with the inductive invariant pt(res) = [prefix] pt(self) over the abstract group; wrappers k*P / P*k are delegation obligations; double/+= meet the group law (C04 obligations)'),
  'C08': dict(
-    tasks=T('csearch:debug'),
+    tasks=(lambda tier: ['kani:dec_quick', 'kani:bytes', 'csearch:debug', 'mirvc:specs_lib', 'mirvc:specs_groups'] if tier == 'quick' else ['kani:dec_quick', 'kani:bytes', 'csearch:debug', 'mirvc:specs_lib', 'mirvc:specs_groups', 'kani:dec_strict']),
     trusted_base=[A['A7'], A['A9']],
     assumptions=[A['A7'], A['A9']],
     explanation='(under construction) decoder contracts'),
  'C10': dict(
-    tasks=T('csearch:debug', 'mirvc:specs_lib', 'mirvc:specs_groups'),
+    tasks=(lambda tier: ['kani:enc', 'kani:bytes', 'csearch:debug', 'mirvc:specs_lib', 'mirvc:specs_groups'] if tier == 'quick' else ['kani:enc', 'kani:bytes', 'csearch:debug', 'mirvc:specs_lib', 'mirvc:specs_groups']),
     trusted_base=[A['A7'], A['A9']],
     assumptions=[A['A7'], A['A9']],
     explanation='(under construction) encoder contracts'),
  'C07': dict(
-    tasks=T('lsearch:all', 'mirvc:specs_lib'),
+    tasks=(lambda tier: ['kani:limbs_linear', 'mirvc:specs_lib', 'lsearch:all'] if tier == 'quick' else ['kani:limbs_linear', 'mirvc:specs_lib', 'lsearch:all', 'kani:canon']),
     trusted_base=[A['A6'], A['A7']],
     assumptions=[A['A6'], A['A7']],
     explanation='(under construction) canonicity'),
@@ -84,6 +84,12 @@ PROPS = {
     trusted_base=[A['A2'], A['A7']],
     assumptions=[A['A2'], A['A7']],
     explanation='(under construction) square roots'),
+ 'C18': dict(
+    tasks=(lambda tier: ['kani:limbs_linear', 'kani:bytes', 'kani:dec_quick', 'kani:enc', 'kani:dispatch', 'psearch:all'] if tier == 'quick' else
+           ['kani:limbs_linear', 'kani:bytes', 'kani:dec_quick', 'kani:enc', 'kani:dispatch', 'kani:canon', 'kani:dec_strict', 'psearch:all']),
+    trusted_base=[A['A6'], A['A7'], A['A9'], A['A11']],
+    assumptions=[A['A6'], A['A7'], A['A11']],
+    explanation='every Kani harness proves all default checks (overflow, shift, index, unwrap, debug_assert, unreachable) of the real MIR it reaches, with debug assertions on; the dual-profile search executes every request on the dev and the release build and compares'),
 }
 
 HOOK_COMMITS = ['8aeb3f0']
